@@ -3,7 +3,7 @@
 import json
 claimed = {
  "C01": ("exploration", "Seeded search over schedules, payload sizes, fragmentations and completion orders of the real client/server code under the simulator; oracle: every error-free completion carries F(own arguments) byte for byte (unique ids + payload digests), re-checked at end of run."),
- "C02": ("exploration", "Seeded search over interleavings of request write failure (EPIPE after a cut, closed codec), response arrival, peer FIN/RST at a byte offset, local Close and server kill, with the connection reader optionally starved; oracle: every private Done channel (capacity 4) received its call exactly once, Error unchanged between first signal and end of run, no blocking call left blocked."),
+ "C02": ("exploration", "Seeded search over interleavings of request write failure (EPIPE after a cut, closed codec), response arrival, peer FIN/RST at a byte offset, local Close and server kill, with the connection reader optionally starved; oracle: every private Done channel (capacity 4) received its call exactly once, Error unchanged between first signal and end of run, no blocking call left blocked. Second scenario (c02t): the same oracle over calls through the real pooling Transport and a real load-balancing Client on top of it while servers are killed and restarted."),
  "C03": ("fault_enumeration", "Cut points are enumerated (conversation x direction x FIN/RST x byte offset; Close/kill at every op index) and crossed with sampled schedules; oracle: nobody hangs, calls after a reported loss fail at once with ErrShutdown, responses whose complete frame precedes the cut still succeed (wire tap), successful calls carry the right reply. Not exhaustive: schedules are sampled."),
  "C04": ("exploration", "Handler execution log and independent wire-tap decoder against the set of calls the clients made: executions per id <= 1 (==1 for successful calls and in fault-free runs), argument digest equal, no phantom executions, <=1 request and response frame per (connection, seq)."),
  "C05": ("exploration", "Server pipelining in all accept modes x direct/batched I/O x client pipelining: handler intervals per connection are disjoint and in wire order, response frames in request order, arrivals on a shared Done channel in issue order (failures included)."),
@@ -20,7 +20,7 @@ claimed = {
  "C17": ("exploration", "Real Client over a fake RoundTripper with scripted, time-varying per-target latency on the fake clock: RoundRobin windows of n consecutive calls hit n distinct targets; Random stays within the targets; LeastTime is compared call by call with a reference model of the documented EWMA (non-minimal picks only in probe slots >= Tick apart)."),
  "C18": ("exploration", "Scripted up/down histories: failover within a 1 s detection bound and reuse after recovery, waiters released when a target becomes live, exact DialTimeout expiry with ErrTimeout, Close releasing waiters with ErrShutdown and failing later calls at once, Fallback pauses; nobody waits longer than DialTimeout + bound."),
  "C20": ("exploration", "Conn(s)/Transport/Client(real Transport) plus non-poll servers with calls in flight, blocked streams, never-answering handlers, dead peers and refused dials; every participant closed in PRNG order, some twice and overlapping; oracle (exact, from the simulator's goroutine registry and simnet's connection table): no library goroutine alive, every connection closed on both sides, Listen returned, repeated-Close results."),
- "C19": ("exploration", "CallWithContext with deadlines before / at / after the scripted handler latency, never-answering handlers, pre-cancelled contexts, context buffers around the reply size, next to sibling calls; exact fake-clock oracle: reply iff handler latency < deadline, context error exactly at the deadline otherwise, siblings unharmed."),
+ "C19": ("exploration", "CallWithContext with deadlines before / at / after the scripted handler latency, never-answering handlers, pre-cancelled contexts, context buffers around the reply size, next to sibling calls; exact fake-clock oracle: reply iff handler latency < deadline, context error exactly at the deadline otherwise, siblings (calls, pings, streams) unharmed. Second scenario (c19t): CallWithContext through the real Transport and a real Client while servers (possibly all) are away: return no later than the deadline."),
 }
 pending = {}
 na = {
